@@ -224,7 +224,10 @@ pub fn main(args: &Args) -> ! {
     // and only a failure that reproduces is reported (or, for an unreached fault point, treated as a machinery failure)
     let mut reruns = 0u64;
     for (p, r) in ps.iter().zip(results.iter_mut()) {
-        if r.is_err() {
+        if let Err((kind, what)) = &r {
+            if std::env::var("AQV_DEBUG").is_ok() {
+                eprintln!("[C19-first-pass-failure] {} {} workers={} :: {} {}", p.tracker, p.point, p.workers, kind, what);
+            }
             reruns += 1;
             *r = run_plan(p);
         }
@@ -236,6 +239,9 @@ pub fn main(args: &Args) -> ! {
         let label = format!("{} {} mode={} hit={} workers={}", p.tracker, p.point, p.mode, p.nth, p.workers);
         match r {
             Ok((line, ms)) => {
+                if std::env::var("AQV_DEBUG").is_ok() {
+                    eprintln!("[C19] {} ms  {}", ms, label);
+                }
                 reached += 1;
                 max_ms = max_ms.max(*ms);
                 if run.want_sample() && reached % 7 == 1 {
